@@ -68,6 +68,10 @@ def install(pe):
     E[B + "slice"] = lambda pe, a, k: slice(*[None if x is None else pe.as_index(x) for x in a])
     E[B + "id"] = lambda pe, a, k: id(a[0])
     E[B + "hash"] = lambda pe, a, k: hash(pe.hashable(a[0]))
+    import base64 as _b64
+
+    for _nm in ("urlsafe_b64encode", "urlsafe_b64decode", "b64encode", "b64decode"):
+        E["base64." + _nm] = lambda pe, a, k, f=getattr(_b64, _nm): f(a[0])
     for exc in ("ValueError", "NotImplementedError", "TypeError", "KeyError", "IndexError", "Exception",
                 "RuntimeError", "AssertionError", "AttributeError", "StopIteration", "LookupError"):
         E[B + exc] = (lambda nm: lambda pe, a, k: _mkexc(pe, nm, a))(exc)
@@ -1073,6 +1077,13 @@ def builtin_method(pe, obj, name, args, kwargs):
             return _exact(pe, obj) == int(_exact(pe, obj))
         if name == "copy":
             return obj
+    if isinstance(obj, int) and not isinstance(obj, bool) and name in ("to_bytes", "bit_length"):
+        try:
+            return getattr(obj, name)(*[pe.to_py(a) for a in args], **{k: pe.to_py(v) for k, v in kwargs.items()})
+        except OverflowError as e:
+            raise PERaise("OverflowError", str(e))
+    if isinstance(obj, (bytes, bytearray)) and name in ("decode", "hex", "startswith", "endswith"):
+        return getattr(obj, name)(*args, **kwargs)
     raise PEError(f"method {type(obj).__name__}.{name} not modelled")
 
 
